@@ -1,5 +1,6 @@
 import UtpVerif.Lemmas.Rx
 import UtpVerif.Props.C09
+import UtpVerif.Model.Segments
 /-!
 # C01 (end to end) — what the application reads is a prefix of what was written
 
@@ -515,6 +516,45 @@ example :
     let pkt : Nat → List Nat := fun g => [10 * g + 1, 10 * g + 2, 10 * g + 3]
     ((Sys.init 64 4).run pkt [.arrive 2, .arrive 1, .arrive 1, .read 5, .arrive 0, .arrive 2, .flush, .read 2, .read 100]).map (·.out)
       = some [1, 2, 3, 11, 12, 13, 21, 22, 23] := by
+  decide +kernel
+
+/-! ### Known finding D2: the labelling hypothesis is FALSE of the sender model (and of the code) after a probe re-split
+
+Negation witness, by kernel evaluation of the sender model (`Model/Segments.lean`, tied to the code by the
+differential) composed with the receiver system above: a probe that is popped on expiry is segmented again under
+the same sequence number; if its first copy had been delivered (only the ACK was late), the reader's bytes are
+no longer a prefix of the written stream. The deterministic replay on the real connection is
+`corpus/vsock/known_d2_probe_resplit_after_delivery.ops`, re-run on every check. -/
+
+def d2Stream : List Nat := List.range 9
+
+/-- the bytes a segment view puts on the wire (C01 `wire_payload_is_stream_slice`, nothing acknowledged yet) -/
+def d2Wire (v : SegView) : List Nat := (d2Stream.drop v.seg.offsetAbs).take v.seg.payloadSize
+
+/-- sender: 9 bytes written, the first 5 go out as an MTU probe under sequence number 0 -/
+def d2Sent : Segments := ((Segments.new 0).enqueue 5 true).onSent 0 10
+
+/-- the probe's expiry (retransmission timer fired, `mtu_probe_max_retransmissions = 0`): it is popped and its
+bytes are segmented again at the proven size 3 - under the SAME sequence number 0, the rest as number 1 -/
+def d2Resplit : Segments :=
+  match d2Sent.popExpiredMtuProbe true 0 with
+  | some (s, _) => (s.enqueue 3 false).enqueue 2 false
+  | none => d2Sent
+
+def d2Views (s : Segments) : List (Nat × List Nat) := ((s.iterForSending none).getD []).map (fun v => (v.seqNr, d2Wire v))
+
+/-- what the receiver gets when the FIRST copy of number 0 was delivered after all (only its ACK was late) and
+number 1 arrives after the re-split -/
+def d2Pkt : Nat → List Nat
+  | 0 => ((d2Views d2Sent).lookup 0).getD []
+  | 1 => ((d2Views d2Resplit).lookup 1).getD []
+  | _ => []
+
+theorem d2_resplit_breaks_the_labelling :
+    d2Views d2Sent = [(0, [0, 1, 2, 3, 4])] ∧
+    d2Views d2Resplit = [(0, [0, 1, 2]), (1, [3, 4])] ∧
+    ((Sys.init 64 4).run d2Pkt [.arrive 0, .arrive 1, .flush, .read 100]).map (·.out) = some [0, 1, 2, 3, 4, 3, 4] ∧
+    ¬ ([0, 1, 2, 3, 4, 3, 4] <+: d2Stream) := by
   decide +kernel
 
 end UtpVerif.Props.C01E2E
